@@ -1161,6 +1161,7 @@ func (fv *FuncVerifier) verifyUnit(lit *ast.FuncLit) {
 		sig = fv.sigOfLit(&Closure{Lit: lit, Info: info})
 	}
 	fv.ghostTypes = ghostTypesFor(fi, lit, info)
+	fv.ghostTypes["fnres"] = types.Typ[types.Bool]
 	fv.entryParams = map[types.Object]Term{}
 	declare := func(fl *ast.FieldList) {
 		if fl == nil {
@@ -1278,6 +1279,10 @@ func (fv *FuncVerifier) verifyUnit(lit *ast.FuncLit) {
 				fv.ghostTypes["stopped"] = types.Typ[types.Bool]
 			}
 		}
+	}
+	// no loop has run to its normal exit yet (ghosts done<k>, readable in postconditions)
+	for _, ord := range fv.loops {
+		st.ghost[fmt.Sprintf("done%d", ord)] = False
 	}
 	delete(fv.epochAlloc, st.epoch)
 	fv.noteEpochAlloc(st)
